@@ -694,6 +694,14 @@ func payloadNotTruncated(c *core.Ctx, R string) {
 				okCut = true
 			}
 		}
+		// the same cut with bytes.Cut / bytes.Split on the one-byte separator
+		if (cl.Key == "bytes.Cut" || cl.Key == "bytes.Split" || cl.Key == "bytes.SplitN") && len(cl.Expr.Args) >= 2 {
+			if lit, isL := ast.Unparen(cl.Arg(1)).(*ast.CompositeLit); isL && len(lit.Elts) == 1 {
+				if v, ok := core.ConstInt(info, lit.Elts[0]); ok && v == 0x1e {
+					okCut = true
+				}
+			}
+		}
 		if cl.Name == "DecodePacket" && !g.GuardedBy(cl.Loc, not4) {
 			// inside a loop: the call can follow itself
 			if g.CanFollow(cl.Loc, cl.Loc) || g.Reach(g.After(cl.Loc), func(s core.State) bool { return s.B == cl.Loc.B && s.I == cl.Loc.I }, nil, nil) {
@@ -704,6 +712,33 @@ func payloadNotTruncated(c *core.Ctx, R string) {
 			okAppend = true
 		}
 	}
+	// every return of the decoder hands back the packets decoded so far — also the one that reports a malformed piece:
+	// OnData dispatches them before it ends the session with the parse error (fix 78c21b4)
+	var acc types.Object
+	for _, a := range assignsIn(u, func(l ast.Expr) bool { return true }) {
+		if ce, isC := ast.Unparen(a.Rhs).(*ast.CallExpr); isC {
+			if id, isID := ce.Fun.(*ast.Ident); isID && id.Name == "append" && len(ce.Args) >= 1 {
+				if core.ObjOf(info, a.Lhs) == core.ObjOf(info, ce.Args[0]) {
+					acc = core.ObjOf(info, a.Lhs)
+				}
+			}
+		}
+	}
+	okRet := acc != nil
+	nRet := 0
+	for _, r := range returnsIn(u) {
+		if g.GuardedBy(r.Loc, not4) {
+			continue // the revision-3 arm delegates to the parser
+		}
+		nRet++
+		if len(r.Stmt.Results) == 0 {
+			continue // naked return of the named results
+		}
+		if core.ObjOf(info, r.Stmt.Results[0]) != acc {
+			okRet = false
+		}
+	}
+	c.Check(R, "transports.(*polling).decodePayload/every-return-hands-back-the-decoded-packets", u.Pos(), okRet && nRet >= 2, keyf("%d returns of the revision-4 decoder, each returning the accumulated slice: %v", nRet, okRet))
 	c.Check(R, "transports.(*polling).decodePayload/cuts-at-separator,DecodePacket-per-piece", u.Pos(), okCut && okDecode && okAppend,
 		keyf("bytes.IndexByte(…, 0x1e): %v; DecodePacket in the loop: %v; packets collected: %v", okCut, okDecode, okAppend))
 	used := false
